@@ -3,6 +3,7 @@ package sizes
 import (
 	"encoding/json"
 	"fmt"
+	"strings"
 	"sync"
 
 	"github.com/github/git-sizer/git"
@@ -132,9 +133,22 @@ func (p *Path) TreePrefix() string {
 				return p.parent.TreePrefix() + p.relativePath + "/"
 			}
 		case p.relativePath != "":
-			return p.relativePath + "/"
+			// This tree is named directly by a reference or by a
+			// ROOT argument. Entries of a tree-ish `T` are spelled
+			// `T:<path>`, unless `T` itself already has the form
+			// `<rev>:<path>` (or `<rev>:`).
+			switch {
+			case strings.HasSuffix(p.relativePath, ":"):
+				return p.relativePath
+			case strings.Contains(p.relativePath, ":"):
+				return p.relativePath + "/"
+			default:
+				return p.relativePath + ":"
+			}
 		default:
-			return "???"
+			// We never found a name for this tree; fall back to its
+			// object ID, as `BestPath()` does.
+			return p.OID.String() + ":"
 		}
 	case "commit", "tag":
 		switch {
